@@ -58,6 +58,9 @@ def corpus_cases():
     return out
 
 
+SIDE_PROPS = ("C02", "C03", "C05", "C14")
+
+
 def corpus_applicable(pid, d, t):
     """a corpus case joins a property's run unless it is outside that property's quantifier"""
     if d.get("routing", {}).get("use_id_table") is False:
@@ -80,6 +83,22 @@ def explore(pid, cases, rep, nontrivial, extra_checks=(), keep=None, use_corpus=
     reqs, idx = [], []
     stats = collections.Counter()
     dist = collections.Counter()
+    # the decidable side conditions of the hardware-level theorems (Side.v), evaluated per accepted description:
+    # how much of the explored space the universal theorems C02_hw_delivered_model / C03_hw_delivered_model /
+    # C05_model_signals speak about (a description outside them is still decided by the certified checker)
+    if pid in SIDE_PROPS:
+        acc = [i for i, m in enumerate(mods) if isinstance(m, list) and m and m[0] == "ok"]
+        sides = common.run_model([modelio.request(cases[i][0], cmd="side") for i in acc]) if acc else []
+        names = ["names_sep_req", "names_sep_rsp", "single_attach", "links_typed", "degrees_fit"]
+        for i, sd in zip(acc, sides):
+            if isinstance(sd, list) and sd and sd[0] == "ok":
+                flags = [b is True for b in sd[1:]]
+                stats["side_all_hold" if all(flags) else "side_some_fail"] += 1
+                for nm, b in zip(names, flags):
+                    if not b:
+                        stats["side_fail_" + nm] += 1
+            else:
+                stats["side_not_evaluated"] += 1
     for i, ((d, t), r) in enumerate(zip(cases, res)):
         dist[f"{t.get('topo')}/{d['routing']['route_algo']}/{'nw' if d['network_type'] != 'axi' else 'axi'}"] += 1
         if not r["ok"]:
@@ -182,6 +201,7 @@ def standard_run(pid, tier, seed, rep, replay, algos, nontrivial, rule, extra_ca
         "model_correspondence": {"identical_netlists": stats["model_identical"], "drift_other_shortest_path": stats["drift_path_choice"],
                                  "acceptance_mismatches": stats["acceptance_mismatch"], "netlist_mismatches": stats["netlist_mismatch"],
                                  "extraction_vs_vm_compute": [stats["vm_crosscheck_agreed"], stats["vm_crosscheck"]]},
+        "theorem_side_conditions": {k: v for k, v in stats.items() if k.startswith("side_")},
         "exhaustive": False,
     })
     return stats
